@@ -26,7 +26,7 @@ SPECS.append({
   H("C06", DB, "Select6", "both", ["checked"], "6 terms (1 symbolic), cap any int", "first four retained, subset, no duplicates"),
   H("C06", DB, "Select12", "both", ["checked"], "12 terms (2 symbolic), cap any int", "same, above the default cap of 10"),
   H("C06", DB, "Superset3Q", "both", ["checked", "nonempty"], "3 concrete commands x 3 shapes; 1-2 symbolic query words", "NLP-off results are NLP-on candidates"),
-  H("C06", DB, "Superset2", "thorough", ["checked", "nonempty"], "2 commands with symbolic words", "same"),
+  H("C06", DB, "Superset3Q3", "thorough", ["checked", "nonempty"], "3 semi-concrete commands; 1-3 query words", "same"),
  ],
  "manifest": {"text": "Bounded symbolic model checking of the NLP expansion pipeline: words are solver variables compared against every table word of their length; prefix / no-duplicate / retention / superset contracts asserted on every path.",
               "note": "Trusted: executor + intrinsics, z3, go/ssa. Bounds: <=2 query words of 2-4 ASCII letters; term lists <=12; databases <=3 commands."},
@@ -241,7 +241,6 @@ SPECS.append({
   H("C05", DB, "PairsMonitored", "both", ["searched", "done"], "2 requests through the monitoring wrapper; 6 option sets x 5 queries each", "monitored wrapper's own projection", synctest=True),
   H("C05", DB, "OffOn", "both", ["searched", "done"], "search; optionally disable; replace / invalidate / nothing; optionally search while off; enable; search", "no entry outlives a replacement made while the cache is off (also C01 on the cached path)", synctest=True),
   H("C05", DB, "Hist3", "thorough", ["searched", "done"], "search, one of 6 operations, search", "no entry outlives invalidation / replacement; disabled cache is bypassed", synctest=True),
-  H("C05", DB, "Hist4", "thorough", ["searched", "done"], "4 steps", "same", synctest=True),
  ],
  "manifest": {"text": "Bounded model checking of histories through the real caching layer against the real uncached engine as oracle at every step.",
               "note": "Trusted: executor, z3, injective key rendering (stub for json.Marshal), native sha256. Bounds: <=4 steps, small query / option sets."},
